@@ -280,7 +280,7 @@ func (ex *Exec) checkReturn(fr *Frame, ct *Contract, r retInfo, ord int) {
 		ex.obligeNamed(st, fmt.Sprintf("%s#emits%d@ret%d", key, i+1, ord), "emits", goal, "on success the callback was called exactly: "+e.Text, r.pos)
 	}
 	// frame
-	if ct.HasMod {
+	if ct.HasMod && ct.Opts["assumeframe"] == "" {
 		ex.checkFrame(fr, st, ct, ord, r.pos)
 	}
 }
